@@ -395,3 +395,123 @@ func VerifC09_BatchNew() {
 	W.checkAll("after")
 	vreach("end")
 }
+
+// ---- batch creation through every API path x initialiser present/absent x observer set:
+// every callback (initialiser and observers) runs with the world locked, sees an alive new
+// entity with its relation target in place, events fire once per new entity after all
+// initialiser calls, and the world is unlocked afterwards.
+func VerifC09_BatchCreateMatrix() {
+	W := vShapeFor(1)
+	t := W.e[0].h
+	n0 := W.n
+	const count = 2
+	if W.n+count > vNE {
+		return
+	}
+	api := vPick("api", 6)
+	withFn := vPick("initialiser", 2) == 1 && api%2 == 0 // NewBatch (odd) always copies a value
+	obsSet := vPick("observers", 4)                      // bit 0: OnCreateEntity, bit 1: OnAddRelations
+	inits, unlockedCalls, badEntity := 0, 0, 0
+	var evCreate, evRel [vNE]int
+	isNew := func(e Entity) bool {
+		ok := W.w.Alive(e) && W.indexOf(e) < 0 && W.u.GetRelation(e, W.id[cR1]) == t
+		return ok
+	}
+	seen := map[Entity]int{}
+	var order []Entity
+	idx := func(e Entity) int {
+		if k, ok := seen[e]; ok {
+			return k
+		}
+		seen[e] = len(order)
+		order = append(order, e)
+		return len(order) - 1
+	}
+	see := func(arr *[vNE]int) func(Entity) {
+		return func(e Entity) {
+			if !W.w.IsLocked() {
+				unlockedCalls++
+			}
+			if !isNew(e) || (withFn && inits != count) {
+				badEntity++
+				return
+			}
+			if k := idx(e); k < vNE {
+				arr[k]++
+			}
+		}
+	}
+	if obsSet&1 != 0 {
+		Observe(OnCreateEntity).Do(see(&evCreate)).Register(W.w)
+	}
+	if obsSet&2 != 0 {
+		Observe(OnAddRelations).Do(see(&evRel)).Register(W.w)
+	}
+	init := func(e Entity) {
+		if !W.w.IsLocked() {
+			unlockedCalls++
+		}
+		if !isNew(e) {
+			badEntity++
+		}
+		idx(e)
+		inits++
+	}
+	vcheck("no-panic", !vpanics(func() {
+		switch api {
+		case 0:
+			m := NewMap[vChild](W.w)
+			if withFn {
+				m.NewBatchFn(count, func(e Entity, _ *vChild) { init(e) }, t)
+			} else {
+				m.NewBatchFn(count, nil, t)
+			}
+		case 1:
+			NewMap[vChild](W.w).NewBatch(count, &vChild{}, t)
+		case 2:
+			m := NewMap1[vChild](W.w)
+			if withFn {
+				m.NewBatchFn(count, func(e Entity, _ *vChild) { init(e) }, RelIdx(0, t))
+			} else {
+				m.NewBatchFn(count, nil, RelIdx(0, t))
+			}
+		case 3:
+			NewMap1[vChild](W.w).NewBatch(count, &vChild{}, RelIdx(0, t))
+		case 4:
+			m := NewMap2[vChild, vPos](W.w)
+			if withFn {
+				m.NewBatchFn(count, func(e Entity, _ *vChild, _ *vPos) { init(e) }, RelIdx(0, t))
+			} else {
+				m.NewBatchFn(count, nil, RelIdx(0, t))
+			}
+		case 5:
+			NewMap2[vChild, vPos](W.w).NewBatch(count, &vChild{}, &vPos{1, 2}, RelIdx(0, t))
+		}
+	}))
+	vcheck("all-callbacks-ran-with-the-world-locked", unlockedCalls == 0)
+	vcheck("callbacks-saw-new-alive-entities-after-initialisation", badEntity == 0)
+	if withFn {
+		vcheck("initialiser-once-per-new-entity", inits == count)
+	}
+	for k := 0; k < count; k++ {
+		wantC, wantR := 0, 0
+		if obsSet&1 != 0 {
+			wantC = 1
+		}
+		if obsSet&2 != 0 {
+			wantR = 1
+		}
+		vcheck("events-once-per-new-entity", evCreate[k] == wantC && evRel[k] == wantR)
+	}
+	vcheck("unlocked-afterwards", !W.w.IsLocked())
+	// the new entities join the model
+	q := NewFilter1[vChild](W.w).Query(RelIdx(0, t))
+	created := 0
+	for q.Next() {
+		if W.indexOf(q.Entity()) < 0 {
+			created++
+		}
+	}
+	vcheck("created-count", created == count && n0 == W.n)
+	vreach("end")
+}
